@@ -2,7 +2,9 @@
     Transcribes  PaddedStringDisplay::fmt          (/repo/src/style.rs:734-769),
                  the width/None split of a placeholder (src/style.rs:365-384),
                  WideElement::Message expansion        (src/style.rs:437-482, arm 461-480).
-    Line numbers refer to /repo at commit 96a75c4.
+    Line numbers refer to /repo at commit 96a75c4; at HEAD 7d42cff every one of them is 4 higher
+    (fix 6ff82af inserted 2 lines at style.rs:157 and 2 at :277; the code below :280 is unchanged:
+    PaddedStringDisplay::fmt is style.rs:738-773, WideElement::expand 447-486 today).
 
     A string is a list of characters; each character carries its code point and its
     terminal column width.  The UTF-8 byte length is COMPUTED from the code point
@@ -139,6 +141,21 @@ Definition ch_ok (c : ch) : Prop := cw c <= chb c.
     content contains a character that is not one byte / one column *)
 Definition trunc_nonascii (s : str) (w : N) (tr : bool) : Prop :=
   tr = true /\ w < cols s /\ Exists (fun c => ~ ascii1 c) s.
+
+(** SPECIFICATION side of the truncation clause, written from the property text with
+    firstn / skipn on CELLS (independent of [padded] / [trunc_range], which slice BYTES): the
+    cells the property asks for are the first W, the last W, or the W cells after dropping
+    floor(excess/2) on the left *)
+Definition trunc_spec (s : str) (w : N) (a : align) : str :=
+  let e := cols s - w in
+  match a with
+  | ALeft => firstn (N.to_nat w) s
+  | ARight => skipn (N.to_nat e) s
+  | ACenter => firstn (N.to_nat w) (skipn (N.to_nat (e / 2)) s)
+  end.
+(** characters of the refutation witnesses *)
+Definition e_acute : ch := mkch 233 1.            (* U+00E9, 2 bytes, 1 column *)
+Definition cjk (c : N) : ch := mkch c 2.          (* 3 bytes, 2 columns *)
 
 (** ------------------------------------------------------------------ correspondence *)
 (* run-length encoded strings as written by the harness *)
